@@ -1,15 +1,27 @@
 #!/usr/bin/env python3
 """Print the prompt for an independent mutation agent for property <Id> and create its scratch worktree /tmp/mut-<Id>."""
 import json, sys, subprocess
-pid = sys.argv[1]; n = sys.argv[2] if len(sys.argv) > 2 else "3"
+pid = sys.argv[1]; n = sys.argv[2] if len(sys.argv) > 2 else "3"; rnd = sys.argv[3] if len(sys.argv) > 3 else ""
 p = [json.loads(l) for l in open("/verif/properties.jsonl") if json.loads(l)["id"] == pid][0]
-wt = "/tmp/mut-%s" % pid
+wt = "/tmp/mut%s-%s" % (rnd, pid)
 subprocess.run(["git", "-C", "/repo", "worktree", "remove", "--force", wt], capture_output=True)
-subprocess.run(["git", "-C", "/repo", "branch", "-D", "mut/" + pid], capture_output=True)
-r = subprocess.run(["git", "-C", "/repo", "worktree", "add", "-q", "-b", "mut/" + pid, wt, "main"], capture_output=True, text=True)
+subprocess.run(["git", "-C", "/repo", "branch", "-D", "mut%s/" % rnd + pid], capture_output=True)
+r = subprocess.run(["git", "-C", "/repo", "worktree", "add", "-q", "-b", "mut%s/" % rnd + pid, wt, "main"], capture_output=True, text=True)
 assert r.returncode == 0, r.stderr
+import glob, os
+tried = []
+for mp in sorted(glob.glob("/verif/seeded/%s/*/meta.json" % pid)):
+    try:
+        mm = json.load(open(mp))
+        site = mm.get("site") or ""
+        summ = (mm.get("summary") or mm.get("what") or mm.get("description") or "")
+        if isinstance(summ, str) and (site or summ): tried.append("  - %s: %s" % (site, summ[:140].replace("\n", " ")))
+    except Exception: pass
+known = [l.split(" ", 3)[3][:230] for l in open("/verif/KNOWN_FINDINGS.txt") if l.startswith("finding: property=%s " % pid)]
+known_txt = ("\nKnown deviations of the unmodified tree (do not count these, and do not build on them):\n" + "\n".join("  - " + k for k in known) + "\n") if known else ""
+tried_txt = known_txt + (("\nChanges of this kind have ALREADY been tried by others; do not repeat them or close variants (pick other sites, other mechanisms, other triggering conditions):\n" + "\n".join(tried[:40]) + "\n") if (rnd and tried) else "")
 mech = "\n".join("  - %s (%s)" % (m.get("name"), m.get("where")) for m in p["anchors"]["mechanism"])
-print(f"""You are helping evaluate a verification tool by writing realistic bugs. You have a scratch git worktree of the Python project whad-client at {wt} (branch mut/{pid}). Work ONLY inside {wt} and scratch files under {wt}-scratch/. Do not look at or touch /verif or /repo. Run Python with `cd {wt} && /venv/bin/python …` (cwd comes first on sys.path, so the worktree's whad package is used; in standalone demo scripts insert os.getcwd() at the front of sys.path). A harmless conda warning line is printed by every command; ignore it.
+print(f"""You are helping evaluate a verification tool by writing realistic bugs. You have a scratch git worktree of the Python project whad-client at {wt} (a scratch branch). Work ONLY inside {wt} and scratch files under {wt}-scratch/. Do not look at or touch /verif or /repo. Run Python with `cd {wt} && /venv/bin/python …` (cwd comes first on sys.path, so the worktree's whad package is used; in standalone demo scripts insert os.getcwd() at the front of sys.path). A harmless conda warning line is printed by every command; ignore it.
 
 Here is a semantic property of the project that currently holds on this tree (property "{pid}": {p['title']}):
 
@@ -19,6 +31,7 @@ Code meant to make it hold:
 {mech}
 Observe at: {'; '.join(p['anchors'].get('observe_at') or [])}
 
+{tried_txt}
 Task: produce {n} different, independent changes to the source (each a separate patch against the unmodified worktree) that break this property while the code still imports and the existing test suite still passes: `cd {wt} && /venv/bin/python -m pytest -q -p no:cacheprovider --timeout=900 2>&1 | tail -3` must show the same result as without the change (exactly one pre-existing failure, tests/domain/ble/profile/test_clues.py::test_clues_data; 973 passed). Each change should look like a plausible refactoring / optimisation / slip a developer could make, and should need something SPECIFIC to manifest — a particular boundary value or length, a particular interleaving or ordering, a multi-step sequence of operations, an unusual but legal input, or two cooperating sites that each look fine alone — not something that ordinary use exposes at once. Vary the sites across the mechanisms listed above.
 
 For each change k write into {wt}-scratch/m<k>/: `patch.diff` (output of `git diff` with only that change applied), `demo.py` (a small standalone program using the real classes that exits 0 on the unmodified code and exits 1, printing what went wrong, on the modified code), and `meta.json` {{"property": "{pid}", "summary": …, "needs": "what specific input/sequence/schedule makes it manifest", "site": "file:function"}}. Verify each yourself: with the patch applied the full test suite gives the same result and demo.py fails; after `git checkout -- .` demo.py passes. Leave the worktree clean (`git checkout -- .`) at the end. Final answer: a short list of the changes and what you verified.""")
